@@ -1139,8 +1139,9 @@ MANIFEST = {
             "constructions, all in every quick run.",
     "note": "Trusted: Coq kernel + vm_compute, the steering harness (semaphore gates, proxies around the parent-side queues; code "
             "under test unmodified), FIFO/no-loss semantics of multiprocessing.Queue. Schedules are atomic interleavings; worker "
-            "death, abandoned generators and MPI pools are out of scope (stated in the evidence). Known findings: "
-            "sneakier-two-pools-constructed, sneakier-reentered-after-exit (one proposed fix for both); fixed in /repo and pinned by regression obligations: sneaky-map-completion-order "
+            "death, abandoned generators and MPI pools are out of scope (stated in the evidence). No known finding is open; "
+            "fixed in /repo and pinned by regression obligations: sneakier-two-pools-constructed and sneakier-reentered-after-exit (03fc8df; the correspondence runs the "
+            "install-at-enter policy, C14_sneakier_install_at_enter), sneaky-map-completion-order "
             "(c80ac95), run-jobs-startup-race (67a753d), grid-parallel-failing-cell (74ff428), job-pickling-race (e882fb2).",
     "technique": "machine-checked proof in Coq (schedule-quantified transition systems) + vm_compute correspondence under steered schedules",
 }
